@@ -2705,3 +2705,324 @@ Theorem find_inflow_lemma g i j k :
   adj_lookup (adj_of g (Cmt (nthc (order g) j))) (Cmt (nthc (order g) i)) = Some k ->
   find_from (terms_of g) (mkT true k (Some j)) = Some j.
 Proof. intros Hwf Hld Hi Hj Hij Hl. apply (find_inflow g Hwf i j k); assumption. Qed.
+
+(* ================================================================================================ *)
+(* 18. to_compartmental_system, any size: what remains of the equations after the matching loop     *)
+(* ================================================================================================ *)
+Lemma term_eqb_eq s t : term_eqb s t = true <-> s = t.
+Proof.
+  split.
+  - intros H. apply term_eqb_parts in H. destruct s, t. cbn in H. destruct H as [-> [-> ->]]. reflexivity.
+  - intros ->. apply term_eqb_refl.
+Qed.
+
+Definition rm (x : term) (l : leq) : leq := match remove_term x l with Some l' => l' | None => l ++ [tneg x] end.
+
+Lemma remove_term_filter t l : NoDup l -> In t l ->
+  remove_term t l = Some (filter (fun x => negb (term_eqb x t)) l).
+Proof.
+  induction l as [|x tl IH]; intros Hn Hin; [destruct Hin|]. inversion Hn as [|? ? Hx Ht]; subst. cbn [remove_term filter].
+  destruct (term_eqb x t) eqn:E; cbn [negb].
+  - apply term_eqb_eq in E. subst x. f_equal. symmetry. apply filter_all. intros y Hy. apply negb_true_iff.
+    destruct (term_eqb y t) eqn:E'; [|reflexivity]. apply term_eqb_eq in E'. subst. contradiction.
+  - destruct Hin as [Hin|Hin]; [subst; rewrite term_eqb_refl in E; discriminate|]. rewrite (IH Ht Hin). reflexivity.
+Qed.
+
+Lemma rm_filter t l : NoDup l -> In t l -> rm t l = filter (fun x => negb (term_eqb x t)) l.
+Proof. intros Hn Hin. unfold rm. rewrite (remove_term_filter t l Hn Hin). reflexivity. Qed.
+
+Lemma set_nth_length {A} (l : list A) i x : length (set_nth l i x) = length l.
+Proof. revert i. induction l as [|y tl IH]; intros [|i]; cbn [set_nth length]; try reflexivity. rewrite IH. reflexivity. Qed.
+
+Lemma nth_set_nth (l : list leq) i x a : i < length l ->
+  nth_leq (set_nth l i x) a = if Nat.eqb a i then x else nth_leq l a.
+Proof.
+  unfold nth_leq. revert i a. induction l as [|y tl IH]; intros i a Hi; [cbn in Hi; lia|].
+  destruct i as [|i], a as [|a]; cbn [set_nth nth Nat.eqb]; try reflexivity. apply IH. cbn [length] in Hi. lia.
+Qed.
+
+Lemma filter_filter {A} (p q : A -> bool) l : filter q (filter p l) = filter (fun x => p x && q x) l.
+Proof.
+  induction l as [|x tl IH]; cbn [filter]; [reflexivity|]. destruct (p x); cbn [filter andb]; [destruct (q x)|]; rewrite IH; reflexivity.
+Qed.
+
+Lemma existsb_app_term (x : term) l1 l2 : existsb (term_eqb x) (l1 ++ l2) = existsb (term_eqb x) l1 || existsb (term_eqb x) l2.
+Proof. apply existsb_app. Qed.
+
+Lemma fold_nstep_skip eqs L : forall ne,
+  fold_left (nstep eqs) L ne = fold_left (nstep eqs) (filter (fun tr : triple => t_pos (snd tr)) L) ne.
+Proof.
+  induction L as [|[[i j] t] tl IH]; intros ne; cbn [filter fold_left snd]; [reflexivity|].
+  destruct (t_pos t) eqn:E; cbn [fold_left]; [apply IH|]. unfold nstep at 2. rewrite E. apply IH.
+Qed.
+
+Lemma all_distinct_NoDup l : all_distinct l = true -> NoDup l.
+Proof.
+  induction l as [|x tl IH]; cbn [all_distinct]; intros H; [constructor|]. apply andb_prop in H. destruct H as [H1 H2].
+  constructor; [|apply IH, H2]. intros Hin. apply negb_true_iff in H1.
+  assert (existsb (expr_eqb x) tl = true) by (apply existsb_exists; exists x; split; [exact Hin | apply expr_eqb_spec; reflexivity]).
+  congruence.
+Qed.
+
+Lemma NoDup_app_l {A} (l1 l2 : list A) : NoDup (l1 ++ l2) -> NoDup l1.
+Proof. induction l1 as [|a tl IH]; cbn; intros H; [constructor|]. inversion H as [|? ? Ha Ht]; subst. constructor; [|apply IH, Ht]. intros Hin. apply Ha, in_or_app. left. exact Hin. Qed.
+Lemma NoDup_app_r {A} (l1 l2 : list A) : NoDup (l1 ++ l2) -> NoDup l2.
+Proof. induction l1 as [|a tl IH]; cbn; intros H; [exact H|]. inversion H; subst. apply IH. assumption. Qed.
+
+Lemma NoDup_flat_map_member {A B} (h : A -> list B) (l : list A) p : NoDup (flat_map h l) -> In p l -> NoDup (h p).
+Proof.
+  induction l as [|a tl IH]; cbn [flat_map]; intros Hn Hin; [destruct Hin|]. destruct Hin as [Hin|Hin].
+  - subst. eapply NoDup_app_l, Hn.
+  - apply IH; [eapply NoDup_app_r, Hn | exact Hin].
+Qed.
+
+Lemma NoDup_snd_inj {A B} (l : list (A * B)) v v' k : NoDup (map snd l) -> In (v, k) l -> In (v', k) l -> v = v'.
+Proof.
+  induction l as [|[w r] tl IH]; cbn [map snd]; intros Hn H1 H2; [destruct H1|]. inversion Hn as [|? ? Hx Ht]; subst.
+  destruct H1 as [H1|H1], H2 as [H2|H2].
+  - congruence.
+  - injection H1 as E1 E2. subst w r. exfalso. apply Hx. apply in_map_iff. exists (v', k). split; [reflexivity | exact H2].
+  - injection H2 as E1 E2. subst w r. exfalso. apply Hx. apply in_map_iff. exists (v, k). split; [reflexivity | exact H1].
+  - apply IH; assumption.
+Qed.
+
+Definition rem (P : list triple) (a : nat) : leq :=
+  flat_map (fun tr : triple => let '(i, j, t) := tr in
+              (if Nat.eqb a i then [t] else []) ++ (if Nat.eqb a j then [tneg t] else [])) P.
+
+Lemma rem_In P a x : In x (rem P a) ->
+  exists i j t, In (i, j, t) P /\ ((a = i /\ x = t) \/ (a = j /\ x = tneg t)).
+Proof.
+  unfold rem. intros H. apply in_flat_map in H. destruct H as [[[i j] t] [Hin H]]. exists i, j, t. split; [exact Hin|].
+  apply in_app_or in H. destruct H as [H|H].
+  - destruct (Nat.eqb a i) eqn:E; [|destruct H]. destruct H as [<-|[]]. left. split; [apply Nat.eqb_eq, E | reflexivity].
+  - destruct (Nat.eqb a j) eqn:E; [|destruct H]. destruct H as [<-|[]]. right. split; [apply Nat.eqb_eq, E | reflexivity].
+Qed.
+
+Lemma rem_intro P a i j t : In (i, j, t) P -> (a = i -> In t (rem P a)) /\ (a = j -> In (tneg t) (rem P a)).
+Proof.
+  intros Hin. split; intros ->; unfold rem; apply in_flat_map; exists (i, j, t); (split; [exact Hin|]); apply in_or_app.
+  - left. rewrite Nat.eqb_refl. left. reflexivity.
+  - right. rewrite Nat.eqb_refl. left. reflexivity.
+Qed.
+
+Lemma notin_existsb x l : negb (existsb (term_eqb x) l) = true <-> ~ In x l.
+Proof.
+  rewrite negb_true_iff. split.
+  - intros H Hin. assert (existsb (term_eqb x) l = true) by (apply existsb_exists; exists x; split; [exact Hin | apply term_eqb_refl]). congruence.
+  - intros H. destruct (existsb (term_eqb x) l) eqn:E; [|reflexivity]. apply existsb_exists in E. destruct E as [y [Hy E]].
+    apply term_eqb_eq in E. subst. contradiction.
+Qed.
+
+Section Rest.
+  Variable g : graph.
+  Hypothesis Hwf : WF g.
+  Hypothesis Hld : linear_distinct g = true.
+  Local Notation n := (length (order g)).
+  Local Notation cn i := (nthc (order g) i).
+  Local Notation rowf a := (nth_leq (terms_of g) a).
+
+  Definition F (P : list triple) (a : nat) : leq := filter (fun x => negb (existsb (term_eqb x) (rem P a))) (rowf a).
+
+  Definition out_term (a : nat) : leq :=
+    match adj_lookup (adj_of g (Cmt (cn a))) Out with Some k => [mkT false k (Some a)] | None => [] end.
+
+  Lemma adj_entry c : In c (comps g) -> In (Cmt c, adj_of g (Cmt c)) g.
+  Proof. intros Hc. destruct (adj_of_cases g (Cmt c)) as [H|[_ H]]; [exact H|]. exfalso. apply H. apply comps_In. exact Hc. Qed.
+
+  Lemma rates_NoDup c : In c (comps g) -> NoDup (map snd (adj_of g (Cmt c))).
+  Proof.
+    intros Hc. pose proof Hld as H. unfold linear_distinct in H. apply andb_prop in H. destruct H as [H _].
+    apply andb_prop in H. destruct H as [_ H]. apply all_distinct_NoDup in H. apply NoDup_app_l in H.
+    unfold graph_rates in H. apply (NoDup_flat_map_member _ g (Cmt c, adj_of g (Cmt c)) H (adj_entry c Hc)).
+  Qed.
+
+  Lemma keys_NoDup c : In c (comps g) -> NoDup (map fst (adj_of g (Cmt c))).
+  Proof. intros Hc. destruct Hwf as [_ [_ Hw]]. apply (Hw _ _ (adj_entry c Hc)). Qed.
+
+  Lemma comp_index c : In c (comps g) -> exists i, i < n /\ cn i = c.
+  Proof.
+    intros Hc. apply (Permutation_in _ (Permutation_sym (order_perm_lemma g Hwf))) in Hc.
+    apply (In_nth _ _ dflt) in Hc. destruct Hc as [i [Hi E]]. exists i. split; assumption.
+  Qed.
+
+  Lemma row_NoDup a : a < n -> NoDup (rowf a).
+  Proof.
+    intros Ha. rewrite (row_eq g a Ha). pose proof (cn_in g Hwf a Ha) as Hc.
+    apply NoDup_app_intro; [|apply NoDup_app_intro|].
+    - apply NoDup_flat_map; [apply seq_NoDup| |].
+      + intros j _. unfold inflow_term. destruct (Nat.eqb a j); [constructor|]. destruct (adj_lookup _ _); [constructor; [intros []|constructor] | constructor].
+      + intros j j' z _ _ Hz Hz'. unfold inflow_term in Hz, Hz'.
+        destruct (Nat.eqb a j); [destruct Hz|]. destruct (Nat.eqb a j'); [destruct Hz'|].
+        destruct (adj_lookup (adj_of g (Cmt (cn j))) _); [|destruct Hz]. destruct (adj_lookup (adj_of g (Cmt (cn j'))) _); [|destruct Hz'].
+        destruct Hz as [<-|[]]. destruct Hz' as [E|[]]. injection E as _ E. symmetry. exact E.
+    - unfold outflow_terms. apply NoDup_flat_map.
+      + apply (NoDup_map_inv fst). apply keys_NoDup, Hc.
+      + intros e _. destruct (node_eqb (fst e) (Cmt (cn a))); [constructor | constructor; [intros [] | constructor]].
+      + intros [v r] [v' r'] z He He' Hz Hz'. cbn [fst snd] in Hz, Hz'.
+        destruct (node_eqb v (Cmt (cn a))); [destruct Hz|]. destruct (node_eqb v' (Cmt (cn a))); [destruct Hz'|].
+        destruct Hz as [<-|[]]. destruct Hz' as [E|[]]. injection E as E. subst r'.
+        rewrite (NoDup_snd_inj _ v v' r (rates_NoDup _ Hc) He He'). reflexivity.
+    - unfold input_terms. destruct (has_input (cn a)); [constructor; [intros [] | constructor] | constructor].
+    - intros x Hx Hx'. unfold outflow_terms in Hx. apply in_flat_map in Hx. destruct Hx as [e [_ Hx]].
+      destruct (node_eqb (fst e) (Cmt (cn a))); [destruct Hx|]. destruct Hx as [<-|[]].
+      unfold input_terms in Hx'. destruct (has_input (cn a)); [|destruct Hx']. destruct Hx' as [E|[]]. discriminate.
+    - intros x Hx Hx'. apply in_flat_map in Hx. destruct Hx as [j [_ Hx]]. unfold inflow_term in Hx.
+      destruct (Nat.eqb a j); [destruct Hx|]. destruct (adj_lookup _ _); [|destruct Hx]. destruct Hx as [<-|[]].
+      apply in_app_or in Hx'. destruct Hx' as [Hx'|Hx'].
+      + unfold outflow_terms in Hx'. apply in_flat_map in Hx'. destruct Hx' as [e0 [_ Hx']].
+        destruct (node_eqb (fst e0) (Cmt (cn a))); [destruct Hx'|]. destruct Hx' as [E|[]]. discriminate.
+      + unfold input_terms in Hx'. destruct (has_input (cn a)); [|destruct Hx']. destruct Hx' as [E|[]]. discriminate.
+  Qed.
+
+  Lemma nstep_active ne i j k : i < n -> j < n -> i <> j ->
+    adj_lookup (adj_of g (Cmt (cn j))) (Cmt (cn i)) = Some k ->
+    let t := mkT true k (Some j) in
+    nstep (terms_of g) ne (i, j, t)
+    = let ne1 := set_nth ne i (rm t (nth_leq ne i)) in set_nth ne1 j (rm (tneg t) (nth_leq ne1 j)).
+  Proof.
+    intros Hi Hj Hij Hl t. subst t. unfold nstep. cbn [t_pos]. rewrite (find_inflow g Hwf i j k Hi Hj Hij Hl).
+    assert (E : Nat.eqb i j = false) by (apply Nat.eqb_neq; exact Hij). rewrite E. reflexivity.
+  Qed.
+
+  Lemma F_snoc P tr a :
+    F (P ++ [tr]) a
+    = filter (fun x => negb (existsb (term_eqb x)
+               (let '(i, j, t) := tr in (if Nat.eqb a i then [t] else []) ++ (if Nat.eqb a j then [tneg t] else []))))
+             (F P a).
+  Proof.
+    unfold F. rewrite filter_filter. apply filter_ext. intros x. unfold rem. rewrite flat_map_app, existsb_app. cbn [flat_map].
+    rewrite app_nil_r, negb_orb. reflexivity.
+  Qed.
+
+  Lemma F_NoDup P a : a < n -> NoDup (F P a).
+  Proof. intros Ha. unfold F. apply NoDup_filter, row_NoDup, Ha. Qed.
+
+  Lemma F_In P a x : In x (F P a) <-> In x (rowf a) /\ ~ In x (rem P a).
+  Proof. unfold F. rewrite filter_In, notin_existsb. reflexivity. Qed.
+
+  Lemma N_fold : forall L P ne,
+    (forall tr, In tr (P ++ L) -> act_ok g tr) -> NoDup (map pr (P ++ L)) ->
+    length ne = n -> (forall a, a < n -> nth_leq ne a = F P a) ->
+    length (fold_left (nstep (terms_of g)) L ne) = n /\
+    (forall a, a < n -> nth_leq (fold_left (nstep (terms_of g)) L ne) a = F (P ++ L) a).
+  Proof.
+    induction L as [|[[i j] t] tl IH]; intros P ne Hok Hnd Hlen Hinv; cbn [fold_left].
+    - rewrite app_nil_r. split; assumption.
+    - assert (Hok0 : act_ok g (i, j, t)) by (apply Hok, in_or_app; right; left; reflexivity).
+      destruct Hok0 as [Hi [Hj [Hij [k [Hl ->]]]]].
+      set (t := mkT true k (Some j)) in *.
+      assert (Hpair : ~ In (i, j) (map pr P)).
+      { rewrite map_app in Hnd. cbn [map] in Hnd. apply NoDup_remove_2 in Hnd. intros Hin. apply Hnd, in_or_app. left. exact Hin. }
+      assert (HokP : forall tr, In tr P -> act_ok g tr) by (intros tr Htr; apply Hok, in_or_app; left; exact Htr).
+      (* t is still in row i, -t is still in row j *)
+      assert (Ht : In t (F P i)).
+      { apply F_In. split.
+        - rewrite (row_eq g i Hi). apply in_or_app. left. apply in_flat_map. exists j. split; [apply in_seq; lia|].
+          unfold inflow_term. assert (E : Nat.eqb i j = false) by (apply Nat.eqb_neq; exact Hij). rewrite E, Hl. left. reflexivity.
+        - intros Hin. apply rem_In in Hin. destruct Hin as [i' [j' [t' [Hin' [[-> E]|[_ E]]]]]].
+          + destruct (HokP _ Hin') as [_ [_ [_ [k' [_ ->]]]]]. unfold t in E. injection E as _ E. subst j'.
+            apply Hpair. apply in_map_iff. exists (i', j, mkT true k' (Some j)). split; [reflexivity | exact Hin'].
+          + destruct (HokP _ Hin') as [_ [_ [_ [k' [_ ->]]]]]. unfold t in E. discriminate. }
+      assert (Hnt : In (tneg t) (F P j)).
+      { apply F_In. split.
+        - rewrite (row_eq g j Hj). apply in_or_app. right. apply in_or_app. left. unfold outflow_terms. apply in_flat_map.
+          exists (Cmt (cn i), k). split; [apply adj_lookup_In, Hl|]. cbn [fst snd].
+          assert (E : node_eqb (Cmt (cn i)) (Cmt (cn j)) = false).
+          { apply node_eqb_false. intros E. injection E as E. apply Hij. apply (cn_inj g Hwf); assumption. }
+          rewrite E. left. reflexivity.
+        - intros Hin. apply rem_In in Hin. destruct Hin as [i' [j' [t' [Hin' [[_ E]|[-> E]]]]]].
+          + destruct (HokP _ Hin') as [_ [_ [_ [k' [_ ->]]]]]. unfold t in E. discriminate.
+          + destruct (HokP _ Hin') as [Hi' [_ [_ [k' [Hl' ->]]]]]. unfold t in E. cbn [tneg t_pos t_k t_a] in E.
+            injection E as E. subst k'.
+            assert (Ev : Cmt (cn i') = Cmt (cn i)).
+            { apply (NoDup_snd_inj (adj_of g (Cmt (cn j'))) _ _ k (rates_NoDup _ (cn_in g Hwf j' Hj))); apply adj_lookup_In; assumption. }
+            injection Ev as Ev. apply (cn_inj g Hwf i' i Hi' Hi) in Ev. subst i'.
+            apply Hpair. apply in_map_iff. exists (i, j', mkT true k (Some j')). split; [reflexivity | exact Hin']. }
+      pose proof (nstep_active ne i j k Hi Hj Hij Hl) as Hns. cbv zeta in Hns. fold t in Hns. rewrite Hns. clear Hns.
+      set (ne1 := set_nth ne i (rm t (nth_leq ne i))).
+      assert (Hlen1 : length ne1 = n) by (unfold ne1; rewrite set_nth_length; exact Hlen).
+      set (ne2 := set_nth ne1 j (rm (tneg t) (nth_leq ne1 j))).
+      assert (Hok' : forall tr, In tr ((P ++ [(i, j, t)]) ++ tl) -> act_ok g tr)
+        by (intros tr Htr; apply Hok; rewrite <- app_assoc in Htr; exact Htr).
+      assert (Hnd' : NoDup (map pr ((P ++ [(i, j, t)]) ++ tl))) by (rewrite <- app_assoc; exact Hnd).
+      change (P ++ (i, j, t) :: tl) with (P ++ [(i, j, t)] ++ tl). rewrite app_assoc.
+      apply (IH (P ++ [(i, j, t)]) ne2 Hok' Hnd').
+      + unfold ne2. rewrite set_nth_length. exact Hlen1.
+      + intros a Ha. unfold ne2. rewrite nth_set_nth by (rewrite Hlen1; exact Hj).
+        rewrite F_snoc. cbv beta iota zeta. destruct (Nat.eqb a j) eqn:Eaj.
+        * apply Nat.eqb_eq in Eaj. subst a.
+          assert (Eji : Nat.eqb j i = false) by (apply Nat.eqb_neq; congruence).
+          unfold ne1. rewrite nth_set_nth by (rewrite Hlen; exact Hi). rewrite Eji, (Hinv j Hj). cbn [app].
+          rewrite (rm_filter _ _ (F_NoDup P j Hj) Hnt). apply filter_ext. intros x. cbn [existsb]. rewrite orb_false_r. reflexivity.
+        * unfold ne1. rewrite nth_set_nth by (rewrite Hlen; exact Hi). destruct (Nat.eqb a i) eqn:Eai.
+          -- apply Nat.eqb_eq in Eai. subst a. rewrite (Hinv i Hi). cbn [app].
+             rewrite (rm_filter _ _ (F_NoDup P i Hi) Ht). apply filter_ext. intros x. cbn [existsb]. rewrite orb_false_r. reflexivity.
+          -- rewrite (Hinv a Ha). cbn [app existsb negb]. symmetry. apply filter_all. reflexivity.
+  Qed.
+
+  (* invariant 1: what remains of equation a after the matching loop *)
+  Lemma rest_filter a : a < n ->
+    let ne := fold_left (nstep (terms_of g)) (triples (terms_of g)) (terms_of g) in
+    length ne = n /\ nth_leq ne a = F (active g) a /\ NoDup (nth_leq ne a).
+  Proof.
+    intros Ha ne. unfold ne. rewrite fold_nstep_skip, active_triples.
+    destruct (N_fold (active g) [] (terms_of g)) as [H1 H2].
+    - intros tr Htr. apply active_ok. exact Htr.
+    - apply active_pairs_NoDup.
+    - apply eqs_length.
+    - intros b Hb. unfold F. cbn [rem flat_map existsb negb]. symmetry. apply filter_all. reflexivity.
+    - cbn [app] in H2. split; [exact H1|]. rewrite (H2 a Ha). split; [reflexivity | apply F_NoDup, Ha].
+  Qed.
+
+  Lemma rest_members a x : a < n -> In x (F (active g) a) <-> In x (out_term a ++ input_terms g a).
+  Proof.
+    intros Ha. pose proof (cn_in g Hwf a Ha) as Hc. rewrite F_In. split.
+    - intros [Hrow Hnot]. rewrite (row_eq g a Ha) in Hrow. apply in_app_or in Hrow. destruct Hrow as [Hrow|Hrow].
+      + exfalso. apply Hnot. apply in_flat_map in Hrow. destruct Hrow as [j [Hj Hx]]. apply in_seq in Hj.
+        assert (Hact : In (a, j, x) (active g)) by (apply active_In; repeat split; [exact Ha | lia | exact Hx]).
+        apply (proj1 (rem_intro _ a _ _ _ Hact)). reflexivity.
+      + apply in_app_or in Hrow. destruct Hrow as [Hrow|Hrow]; [|apply in_or_app; right; exact Hrow].
+        unfold outflow_terms in Hrow. apply in_flat_map in Hrow. destruct Hrow as [[v r] [He Hx]]. cbn [fst snd] in Hx.
+        destruct (node_eqb v (Cmt (cn a))) eqn:Ev; [destruct Hx|]. destruct Hx as [<-|[]]. apply node_eqb_false in Ev.
+        destruct v as [|c'].
+        * apply in_or_app. left. unfold out_term. rewrite (adj_lookup_NoDup _ Out r (keys_NoDup _ Hc) He). left. reflexivity.
+        * exfalso. apply Hnot.
+          assert (Hc' : In c' (comps g)).
+          { apply comps_In. destruct Hwf as [_ [_ Hw]]. apply (proj2 (Hw _ _ (adj_entry _ Hc)) _ _ He). }
+          destruct (comp_index c' Hc') as [i [Hi Ei]]. subst c'.
+          assert (Hia : i <> a) by (intros E; subst; apply Ev; reflexivity).
+          assert (Hact : In (i, a, mkT true r (Some a)) (active g)).
+          { apply active_In. repeat split; try assumption. unfold inflow_term.
+            assert (E : Nat.eqb i a = false) by (apply Nat.eqb_neq; exact Hia).
+            rewrite E, (adj_lookup_NoDup _ _ r (keys_NoDup _ Hc) He). left. reflexivity. }
+          apply (proj2 (rem_intro _ a _ _ _ Hact)). reflexivity.
+    - intros Hx. apply in_app_or in Hx. destruct Hx as [Hx|Hx].
+      + unfold out_term in Hx. destruct (adj_lookup (adj_of g (Cmt (cn a))) Out) as [k|] eqn:El; [|destruct Hx]. destruct Hx as [<-|[]].
+        apply adj_lookup_In in El. split.
+        * rewrite (row_eq g a Ha). apply in_or_app. right. apply in_or_app. left. unfold outflow_terms. apply in_flat_map.
+          exists (Out, k). split; [exact El | left; reflexivity].
+        * intros Hin. apply rem_In in Hin. destruct Hin as [i' [j' [t' [Hin' [[_ E]|[-> E]]]]]];
+            destruct (active_ok g _ Hin') as [Hi' [_ [_ [k' [Hl' ->]]]]]; [discriminate|].
+          cbn [tneg t_pos t_k t_a negb] in E. injection E as E. subst k'. apply adj_lookup_In in Hl'.
+          pose proof (NoDup_snd_inj _ _ _ k (rates_NoDup _ Hc) Hl' El) as Ev. discriminate.
+      + split; [rewrite (row_eq g a Ha); apply in_or_app; right; apply in_or_app; right; exact Hx|].
+        unfold input_terms in Hx. destruct (has_input (cn a)); [|destruct Hx]. destruct Hx as [<-|[]].
+        intros Hin. apply rem_In in Hin. destruct Hin as [i' [j' [t' [Hin' [[_ E]|[_ E]]]]]];
+          destruct (active_ok g _ Hin') as [_ [_ [_ [k' [_ ->]]]]]; discriminate.
+  Qed.
+End Rest.
+
+(* After the term-matching loop of to_compartmental_system, for every well-formed linear_distinct system of ANY
+   size: the remaining equation of compartment number a is duplicate-free and contains exactly the term of its flow
+   to output (if any) and its zero-order input term (if any) — every +k*A_j and every -k*A_a of a flow between
+   compartments has been cancelled. *)
+Theorem rest_equations_lemma g a :
+  WF g -> linear_distinct g = true -> a < length (order g) ->
+  let ne := fold_left (nstep (terms_of g)) (triples (terms_of g)) (terms_of g) in
+  length ne = length (order g) /\ NoDup (nth_leq ne a) /\
+  (forall x, In x (nth_leq ne a) <-> In x (out_term g a ++ input_terms g a)).
+Proof.
+  intros Hwf Hld Ha ne. destruct (rest_filter g Hwf Hld a Ha) as [H1 [H2 H3]]. fold ne in H1, H2, H3.
+  split; [exact H1 | split; [exact H3|]]. intros x. rewrite H2. apply rest_members; assumption.
+Qed.
